@@ -7,6 +7,9 @@ CLASSES = {
   ('X04-prototype-as-value', r'^crash:special/proto/as-(value|index)$', "a function that is only declared by a prototype used as a value (`c = f;`) panics in get_variable(...).unwrap()"),
   ('X03-inline-recursion', r'^crash:special/inline-(recursion|mutual)$', "an inline function that calls itself leaves an unresolved label: check_branches reaches unreachable!()", r'unreachable'),
  ],
+ 'C13': [
+  ('A01-store-immediate', r'^noasm:(expr/chain16|deep/asg/wa=\(va=vb\))', "wa = (va = vb): the high byte of the 16-bit destination is stored from the constant 0 as `STA #0`, which the 6502 does not have (asm() passes STA with an Immediate operand through; same defect as C01 K16)"),
+ ],
  'C09': [
   ('L01-char-const-quote', r'^lit\.rejected\.char(-stmt)?/"$', "the character constant '\"' is rejected with 'Unterminated string': the preprocessor's string scanner does not know character constants"),
  ],
